@@ -302,6 +302,13 @@ impl Value {
         matches!(self, Self::Identifier(..))
     }
 
+    fn needs_eval(&self) -> bool {
+        matches!(
+            self,
+            Self::Identifier(..) | Self::OpCall(..) | Self::Array(..) | Self::Tuple(..)
+        )
+    }
+
     pub fn real_type_of(&self, ctx: ScriptContextRef) -> Result<Type, Error> {
         let t = self.type_of(ctx.clone())?;
         if let Type::NativeObject(o) = t {
@@ -378,6 +385,20 @@ impl Evaluatable for Value {
             //         Ok(self.clone())
             //     }
             // }
+            // Members are evaluated here, in the scope the aggregate is written in - the same scope type_of
+            // resolves them in. Left unevaluated they were looked up again wherever the tuple or array was
+            // finally used: `let x="s" in let a=(x,1) in let x=5 in a.0` gave 5 for a member typed string,
+            // and a tuple returned from a `let` body lost its bindings altogether.
+            Self::Tuple(t) if t.iter().any(Self::needs_eval) => Ok(Self::Tuple(Arc::new(
+                t.iter()
+                    .map(|x| x.value_of(ctx.clone()))
+                    .collect::<Result<Vec<_>, _>>()?,
+            ))),
+            Self::Array(a) if a.iter().any(Self::needs_eval) => Ok(Self::Array(Arc::new(
+                a.iter()
+                    .map(|x| x.real_value_of(ctx.clone()))
+                    .collect::<Result<Vec<_>, _>>()?,
+            ))),
             _ => Ok(self.clone()),
         }
     }
